@@ -9,8 +9,13 @@ RULE = ("generated schemas (objects, interfaces incl. interface-implements-inter
         "documents valid by construction (nested selections, aliases, arguments of every input type as literals and "
         "variables, named and inline fragments on abstract types, overlapping mergeable fields through several fragment "
         "paths, @skip/@include, custom directives, variable defaults, queries/mutations/subscriptions, introspection) and "
-        "the same with ONE rule-targeted mutation (36 operators) in the reachable part; plus a stream of fragment-free "
-        "documents with repeated fields for the merge model; for every document Go's normalised form is also fed to the "
+        "the same with ONE rule-targeted mutation (39 operators) in the reachable part -- among them repeated-directive-lost: "
+        "two mergeable selections (same leaf field, same field with selections, inline fragments with one type condition, "
+        "two fragment spreads, either side by side or arriving through fragments) carry repeated applications of a "
+        "repeatable directive, exactly one of them invalid (wrong type, null for non-null, undefined variable, unknown "
+        "argument, missing required argument), in lists that are equal as sets / shorter / longer / single; the valid "
+        "documents carry the same pairs with valid applications; plus a stream of fragment-free "
+        "documents with repeated fields (a third of them with repeated directive applications) for the merge model; for every document Go's normalised form is also fed to the "
         "FieldSelectionMerging rule alone and compared with its model. A case is distinct by the hash of its line and "
         "non-trivial when the document contains a fragment on an abstract type or a variable, or is a mutant (merge "
         "stream: the model changed the document; overlap stream: the rule rejected).")
@@ -70,6 +75,26 @@ def classify(case, detail):
     return None
 
 
+def digest(chk, b, state):
+    """digest_batch, then every new disagreement is stored WITH its schema: the case gets a second line in the corpus
+    format (case "schema SDL" "query" "operation name"|(none) "label"), which `harness/bin/c04 corpus` replays."""
+    n0 = len(state.get("specfail", []))
+    vlib.digest_batch(chk, b[0], b[1], classify, state)
+    sdl = {}
+    for c in b[0]:
+        m = re.match(r'\(c04schema (\d+) .* ("[^"]*")\)$', c)
+        if m:
+            sdl[m.group(1)] = m.group(2)
+    sf = state.get("specfail", [])
+    for i in range(n0, len(sf)):
+        (k, c, d) = sf[i]
+        m = re.match(r'\(c04 (\d+) \(meta (\w+) "([^"]*)" \(feat[^)]*\) ("[^"]*")\)', c)
+        o = re.search(r' ("[^"]*"|\(none\)) \(go \w "[^"]*" "[^"]*" "[^"]*"\)\)$', c)
+        if m and o and m.group(1) in sdl:
+            label = "valid" if m.group(2) == "valid" else m.group(3)
+            sf[i] = (k, c + '\n(case %s %s %s "%s")' % (sdl[m.group(1)], m.group(4), o.group(1), label), d)
+
+
 def _admission_calls(src):
     """The option / rule lists of the Normalize and ValidateForSchema calls of an admission sequence, in source order."""
     out = []
@@ -101,7 +126,7 @@ def admission_tie(chk):
                           found_input=False)
 
 
-def run(chk):
+def run(chk, replay_corpus=None):
     admission_tie(chk)
     n = 1000 if chk.tier == "quick" else 50000
     nm = 300 if chk.tier == "quick" else 5000
@@ -135,11 +160,16 @@ def run(chk):
     corpus = os.path.join(vlib.ROOT, "corpus", "C04", "cases.txt")
     b = vlib.run_batch(chk, "%s corpus -in %s -out {out}" % (exe, corpus), model, "corpus")
     if b:
-        vlib.digest_batch(chk, b[0], b[1], classify, state)
+        digest(chk, b, state)
+    if replay_corpus:
+        # the stored (schema, operation) of a replay file goes through the admission sequence again
+        b = vlib.run_batch(chk, "%s corpus -in %s -out {out}" % (exe, replay_corpus), model, "replay")
+        if b:
+            digest(chk, b, state)
     b = vlib.run_batch(chk, "%s gen -seed %d -n %d -out {out}" % (exe, chk.seed, n), model, "gen")
     nschema = 0
     if b:
-        vlib.digest_batch(chk, b[0], b[1], classify, state)
+        digest(chk, b, state)
         nschema += sum(1 for c in b[0] if c.startswith("(c04schema"))
         samples += [c[:600] for c in b[0] if c.startswith("(c04 ")][:3]
         dist = os.path.join(chk.work, "gen.cases.dist")
@@ -152,7 +182,7 @@ def run(chk):
         }
     b = vlib.run_batch(chk, "%s merge -seed %d -n %d -out {out}" % (exe, chk.seed, nm), model, "merge")
     if b:
-        vlib.digest_batch(chk, b[0], b[1], classify, state)
+        digest(chk, b, state)
         nschema += sum(1 for c in b[0] if c.startswith("(c04schema"))
         samples += [c[:600] for c in b[0] if c.startswith("(c04merge")][:2]
         chk.coverage.setdefault("distribution", {})["merge_stream"] = {
@@ -165,10 +195,10 @@ def run(chk):
         for k in range(1, 4):
             bb = vlib.run_batch(chk, "%s gen -seed %d -n %d -out {out}" % (exe, chk.seed * 1000 + k, n * 3), model, "more%d" % k)
             if bb:
-                vlib.digest_batch(chk, bb[0], bb[1], classify, st)
+                digest(chk, bb, st)
             bb = vlib.run_batch(chk, "%s merge -seed %d -n %d -out {out}" % (exe, chk.seed * 1000 + k, nm * 3), model, "moremerge%d" % k)
             if bb:
-                vlib.digest_batch(chk, bb[0], bb[1], classify, st)
+                digest(chk, bb, st)
             if any(kk is None for (kk, _, _) in st.get("specfail", [])):
                 break
 
@@ -186,4 +216,10 @@ def replay(chk, path):
     import json
     r = json.load(open(path))
     chk.log("replay: %s" % str(r.get("case"))[:400])
-    run(chk)
+    lines = [l for l in str(r.get("case")).split("\n") if l.startswith("(case ")]
+    path2 = None
+    if lines:
+        path2 = os.path.join(chk.work, "replay_corpus.txt")
+        with open(path2, "w") as f:
+            f.write("\n".join(lines) + "\n")
+    run(chk, path2)
